@@ -4,6 +4,7 @@ import (
 	"bytes"
 	"fmt"
 	"math"
+	"sort"
 	"strconv"
 
 	"github.com/DataDog/sketches-go/ddsketch"
@@ -74,6 +75,33 @@ func (r *Runner) execProto(cmd string, a []string) string {
 			return "err:frompb"
 		}
 		r.sks[id] = &skEntry{plain: s, mh: omh, storeKind: kind, n: n}
+		// bins given sparsely and contiguously add up (whatever the target store kind)
+		for _, side := range []struct {
+			pb  *sketchpb.Store
+			got []binRat
+			nm  string
+		}{{msg.PositiveValues, storeBins(s.GetPositiveValueStore()), "positive"}, {msg.NegativeValues, storeBins(s.GetNegativeValueStore()), "negative"}} {
+			t := NewTruth(clampOf(kind), n)
+			if side.pb != nil {
+				keys := make([]int, 0, len(side.pb.BinCounts))
+				for k := range side.pb.BinCounts {
+					keys = append(keys, int(k))
+				}
+				sort.Ints(keys)
+				for _, k := range keys {
+					t.Add(k, ratOf(side.pb.BinCounts[int32(k)]))
+				}
+				for i, c := range side.pb.ContiguousBinCounts {
+					t.Add(i+int(side.pb.ContiguousBinIndexOffset), ratOf(c))
+				}
+			}
+			if !sameBins(side.got, t.Bins()) {
+				r.oracleFail("proto-bins-add-up", fmt.Sprintf("%s bins rebuilt into %s(%d): got %s, the message holds %s", side.nm, kind, n, showBinsRat(side.got), showBinsRat(t.Bins())))
+			}
+		}
+		if math.Float64bits(s.GetZeroCount()) != math.Float64bits(msg.ZeroCount) {
+			r.oracleFail("proto-zero", fmt.Sprintf("zero count %v, message %v", s.GetZeroCount(), msg.ZeroCount))
+		}
 		return "ok"
 	}
 	return "bad-op"
